@@ -1274,3 +1274,36 @@ Proof.
     match type of H with context [if ?c then _ else _] => destruct c end; inversion H; subst; eauto.
   - rewrite (EQ eq_refl eq_refl). eauto.
 Qed.
+
+(* ------------------------------------------------------------------ the class-level cache of activity-coefficient models *)
+
+(* the cache key identifies the ordered list of chemicals (this is the lemma that fails when the key forgets the order) *)
+Lemma gamma_key_sound a b : gamma_key_eqb a b = true -> a = b.
+Proof. unfold gamma_key_eqb. apply idx_eqb_eq. Qed.
+
+Lemma gfind_sound key c k0 k o : gfind key c k0 = Some (k, o) -> o = key.
+Proof.
+  revert k0. induction c as [|x c IH]; intros k0 H; simpl in H; [discriminate|].
+  destruct (gamma_key_eqb key x) eqn:E.
+  - inversion H; subst. symmetry. apply gamma_key_sound; assumption.
+  - eapply IH; eauto.
+Qed.
+
+Theorem gamma_request_order_lemma : forall hg c chems c' r,
+  gamma_request hg c chems = (c', r) -> gres_order r = chems.
+Proof.
+  intros hg c chems c' r H. unfold gamma_request in H.
+  destruct (gfind chems c 0) as [[k o]|] eqn:F.
+  - inversion H; subst. simpl. eapply gfind_sound; eauto.
+  - destruct (Nat.leb _ 1); inversion H; subst; reflexivity.
+Qed.
+
+(* for every history of requests (from any package, any stream): the model object handed out is built for the order asked for *)
+Theorem gamma_run_order_lemma : forall hg reqs c,
+  map gres_order (gamma_run hg c reqs) = reqs.
+Proof.
+  intros hg reqs. induction reqs as [|r reqs IH]; intros c; simpl; [reflexivity|].
+  destruct (gamma_request hg c r) as [c' g] eqn:R. simpl. f_equal.
+  - eapply gamma_request_order_lemma; eauto.
+  - apply IH.
+Qed.
